@@ -183,6 +183,12 @@ func c19Child(spec string) {
 		c19GCChurn(rounds)
 		return
 	}
+	if strings.HasPrefix(spec, "countpause/") {
+		var count, secs int
+		fmt.Sscanf(spec, "countpause/%d/%d", &count, &secs)
+		c19CountPause(count, secs)
+		return
+	}
 	if strings.HasPrefix(spec, "frozen/") {
 		var n int
 		fmt.Sscanf(spec, "frozen/%d", &n)
@@ -499,6 +505,46 @@ func c19Pause(pause time.Duration, n int) {
 	json.NewEncoder(os.Stdout).Encode(res)
 }
 
+// c19CountPause: one goroutine draws exactly count IDs, stays silent, and draws again. State renewed "after N draws or
+// after T seconds, whichever comes first" meets both conditions at once only when the silence ends on the N-th
+// draw; the parent tries N = 2^k-1, 2^k, 2^k+1. The last 2048 IDs before the silence and 4096 after it are kept.
+func c19CountPause(count, secs int) {
+	res := c19Result{G: 1, Procs: runtime.GOMAXPROCS(0), RaceEnabled: raceEnabled}
+	ring := make([]uu.ID, 0, 2048)
+	for k := 0; k < count; k++ {
+		id := uu.RandomID()
+		if count-k <= 2048 {
+			ring = append(ring, id)
+		}
+	}
+	time.Sleep(time.Duration(secs) * time.Second)
+	all := ring
+	for k := 0; k < 4096; k++ {
+		all = append(all, uu.RandomID())
+	}
+	res.Draws = count + 4096
+	sort.Slice(all, func(i, j int) bool {
+		if all[i].Higher != all[j].Higher {
+			return all[i].Higher < all[j].Higher
+		}
+		return all[i].Lower < all[j].Lower
+	})
+	for i, id := range all {
+		if id.Version() != 4 || id.Variant() != 1 {
+			res.BadBits++
+		}
+		if i > 0 && all[i-1] == id {
+			res.Duplicates++
+			if res.FirstDuplicate == "" {
+				res.FirstDuplicate = id.String()
+			}
+		} else {
+			res.Distinct++
+		}
+	}
+	json.NewEncoder(os.Stdout).Encode(res)
+}
+
 // c19Frozen: the whole process is stopped (SIGSTOP: a debugger, a container freezer, a suspended VM) while
 // hundreds of goroutines are inside or queued for RandomID, and continued 1.3 s, 2.5 s and 6 s later. Whatever
 // runs on timers started before the stop (a wait limit on a lock, a lease on generator state) finds them all
@@ -764,6 +810,40 @@ func runC19(c *rt.Ctx) {
 		}()
 	}
 
+	// exact draw counts followed by a silence (uninstrumented binary), under both timer-channel semantics
+	type cpJob struct {
+		count  int
+		godbg  string
+		res    c19Result
+		err    error
+		stderr string
+	}
+	var cpJobs []*cpJob
+	cpSecs := 31
+	if fast := os.Getenv("VERIF_MON_FAST"); fast != "" && os.Getenv("VERIF_PLATFORM_PASS") == "" {
+		for _, k := range []uint{10, 12, 14, 16, 18, 20, 22} {
+			for _, d := range []int{-1, 0, 1} {
+				for _, godbg := range []string{"asynctimerchan=1", "asynctimerchan=0"} {
+					j := &cpJob{count: 1<<k + d, godbg: godbg}
+					cpJobs = append(cpJobs, j)
+					pauseWG.Add(1)
+					go func(j *cpJob) {
+						defer pauseWG.Done()
+						cmd := exec.Command(fast, "C19")
+						cmd.Env = append(os.Environ(), fmt.Sprintf("VERIF_C19_CHILD=countpause/%d/%d", j.count, cpSecs), "GOTRACEBACK=single", "GODEBUG="+j.godbg)
+						var out, errb strings.Builder
+						cmd.Stdout, cmd.Stderr = &out, &errb
+						j.err = cmd.Run()
+						if jerr := json.Unmarshal([]byte(out.String()), &j.res); jerr != nil && j.err == nil {
+							j.err = jerr
+						}
+						j.stderr = errb.String()
+					}(j)
+				}
+			}
+		}
+	}
+
 	// positive control
 	_, blocks, _, err := runChild("control", "control")
 	c.SelfTest("race-detector-armed (positive control reported a race)", err == nil && len(blocks) >= 1)
@@ -903,6 +983,31 @@ func runC19(c *rt.Ctx) {
 			w.ClassN("gc-churn-rounds", int64(churnRes.Draws/2))
 		})
 		c.Require("gc-churn-rounds", int64(churnRounds)*9/10)
+	}
+	if len(cpJobs) > 0 {
+		c.Serial("count-then-silence", func(w *rt.W) {
+			for _, j := range cpJobs {
+				args := rt.Args("mode", "one goroutine draws exactly this many IDs, is silent, draws 4096 more; the last 2048 before and all after are kept", "draws_before_the_silence", j.count, "silence_s", cpSecs, "godebug", j.godbg)
+				if j.err != nil {
+					tail := j.stderr
+					if len(tail) > 1500 {
+						tail = tail[:1500]
+					}
+					args["stderr"] = tail
+					w.Fail("child-died", "draws", args, j.err.Error(), "normal exit", "the count-then-silence process died\n"+tail)
+					continue
+				}
+				w.Eval(int64(j.res.Draws))
+				if j.res.Duplicates > 0 {
+					w.Fail("duplicate-id-after-exact-count-and-silence", "draws", args, fmt.Sprintf("%d duplicates among the %d IDs kept, e.g. %s", j.res.Duplicates, j.res.Distinct+int64(j.res.Duplicates), j.res.FirstDuplicate), "no duplicate within a run", "the same ID was returned twice around a silence that followed an exact number of draws")
+				}
+				if j.res.BadBits > 0 {
+					w.Fail("not-version4-variant1", "draws", args, fmt.Sprintf("%d IDs with wrong version/variant bits", j.res.BadBits), "version 4, variant 1 on every ID", "generated ID is not a version 4 / RFC 4122 variant UUID")
+				}
+				w.ClassN("config-exact-count-then-silence", 1)
+			}
+		})
+		c.Require("config-exact-count-then-silence", int64(len(cpJobs)))
 	}
 	c.Serial("draws", func(w *rt.W) {
 		for _, j := range jobs {
